@@ -174,17 +174,29 @@ func (s *HashMap) HVals() [][]byte {
 	return s.data.Values()
 }
 
-// HScan scans the values of a hash
+// HScan scans the values of a hash: it visits up to count fields (count <= 0: all the remaining
+// ones) starting at position cursor and returns the position to continue from.
 func (s *HashMap) HScan(cursor int64, match string, count int64) (int64, map[string][]byte) {
 	values := make(map[string][]byte, s.data.Len())
+	if cursor < 0 {
+		cursor = 0
+	}
 	var i int64 = 0
+	var visited int64 = 0
 	s.data.Scan(func(key string, value []byte) bool {
-		matched, _ := filepath.Match(match, key)
-		if matched && i >= cursor {
+		if i < cursor {
+			i++
+			return true
+		}
+		if count > 0 && visited >= count {
+			return false
+		}
+		if matched, _ := filepath.Match(match, key); matched {
 			values[key] = value
 		}
 		i++
-		return i < cursor+count
+		visited++
+		return true
 	})
 	return i, values
 }
